@@ -69,6 +69,8 @@ Match ==
      /\ Line.live = Cardinality(LiveIn(St, RootKey))
      /\ ("alive" \in DOMAIN Line) => Range(Line.alive) = ScriptTasksAlive
      /\ Line.done = (LiveIn(St, RootKey) = {})
+     \* is_done asked BEFORE the outputs were collected: a command with outputs waiting is not done
+     /\ ("done0" \in DOMAIN Line) => Line.done0 = (out = {} /\ LiveIn(St, RootKey) = {})
      /\ ("ops" \in DOMAIN Line) => Line.ops <= OpsAlive + Cardinality({i \in effs : TRUE})
   \* known deviation D12 observed: a task stuck in flatten_unordered is still there
   /\ IF \E t \in Live(St) : FlatStuck(St, t) THEN TLCSet(4, TLCGet(4) + 1) ELSE TRUE
